@@ -22,7 +22,7 @@ REPO = os.environ.get("VERIF_REPO", "/repo")
 def parse(path):
     if path.endswith("patch.diff"):
         # a seeded change kept under seeded/<ID>/: any violation of its property counts
-        pid = os.path.basename(os.path.dirname(path))
+        pid = os.path.basename(os.path.dirname(path))[:3]      # seeded/C07 and seeded/C07b are both seeds for C07
         return {"property": pid, "rule": "", "expect": ".", "seed": "1"}
     meta = {}
     for l in open(path):
